@@ -18,3 +18,5 @@ open Gossamer.C35
 #print axioms C35_get_needs_lock
 #print axioms Gossamer.C35.goodTable_today
 #print axioms Gossamer.Monitor.modeIn_lock
+#print axioms C35_triecache_refines
+#print axioms encBytes_injective
